@@ -92,6 +92,8 @@ def integral_matching_reference_stretch(x, y, x_ref, y_ref, fixed_points_in_x=No
     for integral_method in (target_function_integral_method, reference_function_integral_method):
         if integral_method not in ('trapezoid', 'rectangle'):
             raise ValueError("Unknown integral method")
+    if fixed_points_finding_strategy not in ('closest', 'lower', 'higher'):
+        raise ValueError("Unknown strategy")
 
     if fixed_points_in_x is not None:
         if len(fixed_points_in_x) > len(x):
